@@ -98,6 +98,7 @@ pub fn register(m: &mut HashMap<&'static str, OpFn>) {
         n += format!("{:?}", s).len();
         n += format!("{:?}", sk).len();
         n += format!("{:?}", sk.verifying_key()).len();
-        vec![tint(n)]
+        // the text is representation specific (raw limbs): only termination is observed
+        vec![tb(n > 0)]
     });
 }
